@@ -188,3 +188,11 @@ pub fn replay_model(case: &Value) -> Option<String> {
 		Ok(_) => None,
 	}
 }
+
+/// Explanation test of the known finding "toml-nested-array-of-tables-before-tables": the value read
+/// back differs from the expected one exactly by the `toml` crate's observed ordering inside nested tables.
+pub fn explained_by_toml_nested_order(got: &crate::model::V, want_reordered: &crate::model::V) -> bool {
+	// `want_reordered` is already the stable non-table-first partition; applying the observed rule on
+	// top of it must give exactly what was read back, and the two must differ
+	got.dump() != want_reordered.dump() && got.dump() == want_reordered.toml_reordered_as_observed(true).dump()
+}
